@@ -5,6 +5,9 @@ package c08
 
 import (
 	"os"
+
+	"github.com/vmware/go-ipfix/pkg/entities"
+
 	"testing"
 	"time"
 
@@ -28,7 +31,10 @@ type Case struct {
 	Proto  string `json:"proto"`
 	Domain uint32 `json:"domain"`
 	Start  uint32 `json:"start"`
-	Steps  []Step `json:"steps"`
+	// Reuse: one Set object is reset and refilled for every send (as applications do to avoid
+	// allocations), instead of a fresh set per message.
+	Reuse bool   `json:"reuse,omitempty"`
+	Steps []Step `json:"steps"`
 }
 
 var rec *ev.Recorder
@@ -69,6 +75,14 @@ func runCase(c Case) *ev.Failure {
 	}
 	expSeq := c.Start
 	sent, total := 0, 0
+	shared := entities.NewSet(false)
+	newSet := func() entities.Set {
+		if c.Reuse {
+			shared.ResetSet()
+			return shared
+		}
+		return entities.NewSet(false)
+	}
 	defined := map[int]bool{}
 	for i, s := range c.Steps {
 		w := s.Which % len(templates)
@@ -79,7 +93,7 @@ func runCase(c Case) *ev.Failure {
 		isTpl := s.Tpl || !defined[w]
 		before := time.Now()
 		if isTpl {
-			set, err := exph.TemplateSet(id, fields, exph.PathAddRecord)
+			set, err := exph.TemplateSetInto(newSet(), id, fields, i%3)
 			if err != nil {
 				return ev.Failf("step %d: %v", i, err)
 			}
@@ -102,7 +116,7 @@ func runCase(c Case) *ev.Failure {
 					recs[k] = append(recs[k], v)
 				}
 			}
-			set, err := exph.DataSet(id, fields, recs, exph.PathAddRecord)
+			set, err := exph.DataSetInto(newSet(), id, fields, recs, i%3)
 			if err != nil {
 				return ev.Failf("step %d: %v", i, err)
 			}
@@ -158,6 +172,7 @@ func genCase(t *rapid.T) Case {
 		Proto:  rapid.SampledFrom([]string{"tcp", "udp"}).Draw(t, "proto"),
 		Domain: rapid.SampledFrom([]uint32{0, 1, 42, 0xFFFFFFFF, 0x01020304}).Draw(t, "domain"),
 	}
+	c.Reuse = rapid.Bool().Draw(t, "reuse")
 	if rapid.Bool().Draw(t, "nearwrap") {
 		c.Start = uint32(0x100000000 - uint64(rapid.IntRange(0, 300).Draw(t, "k")))
 	} else if rapid.IntRange(0, 3).Draw(t, "startrnd") == 0 {
@@ -210,6 +225,9 @@ func classify(c Case) (bool, []string) {
 	}
 	if c.Start == 0 {
 		cl = append(cl, "start_zero")
+	}
+	if c.Reuse {
+		cl = append(cl, "set_reused")
 	}
 	return nt, cl
 }
